@@ -1155,7 +1155,7 @@ class Oracle(object):
     # ................................................................ C18 (sim)
     def _c18_sim(self):
         v = self.v
-        rate = min(v.hot_rate, v.cold_rate)
+        rate = min(v.hot_rate, v.cold_rate) if v.cold_rate > 0 else float('inf')     # real-time mode: one step
         for mv in self.moves:
             if mv['conc'] or any(s[3] > 1 for s in mv['steps']):
                 self.probe('concurrent_moves')
@@ -1184,7 +1184,7 @@ class Oracle(object):
                 hprev, cprev = hf, cf
             if abs(left) > EPS:
                 self.viol('C18', 'move_incomplete', '%s left %s of %s' % (mv['dir'], left, size))
-            elif nsteps != math.ceil(size / rate):
+            elif nsteps != (math.ceil(size / rate) if rate != float('inf') else (1 if size > 0 else 0)):
                 self.viol('C18', 'move_steps', '%s took %d steps for %s at %s' % (mv['dir'], nsteps, size, rate))
 
     # ..................................................................... C12
